@@ -246,12 +246,20 @@ fn leaf() -> BoxedStrategy<Vec<String>> {
             out
         }),
         // math block
-        1 => (inline_line(3), any::<bool>()).prop_map(|(m, close)| if close { vec!["$$".into(), m, "$$".into()] } else { vec!["$$".into(), m] }),
+        // the MyST end line may carry a label `$$ (anchor)`: well-formed, unclosed, with foreign characters, empty
+        2 => (proptest::collection::vec(inline_line(3), 1..3), 0usize..MATH_ENDS.len() + 2).prop_map(|(m, close)| {
+            let mut out = vec!["$$".to_string()];
+            out.extend(m);
+            if close < MATH_ENDS.len() { out.push(MATH_ENDS[close].to_string()); } else if close == MATH_ENDS.len() { out.push("$$".to_string()); }
+            out
+        }),
         // blank lines / dashes-only lines (comment adornment handled by desc_to_lines)
         3 => (0u8..6).prop_map(|k| vec![match k { 0 => "", 1 => " ", 2 => "-", 3 => "----------", 4 => "- -", _ => "" }.to_string()]),
     ]
     .boxed()
 }
+
+const MATH_ENDS: &[&str] = &["$$", "$$ (eq:1)", "$$ (eq-1", "$$ (a b)", "$$ (名)", "$$ ()", "$$ (", "$$ x", "$$(a)", "$$  (a.b+c_d)  tail", "$$ (a)) (b"];
 
 /// a body: blocks, possibly nested in quotes / list items / indentation
 pub fn body(max_blocks: usize) -> impl Strategy<Value = Vec<String>> {
